@@ -811,31 +811,7 @@ def _check(ctx: Ctx) -> None:
               construct="detokenise does not record the bar line (INTERNAL message at the clock after the bar) in every track",
               message=f"{why}: the decoded duration would end at the last note instead of the end of the last bar", file=fd.file, node=fd.node)
 
-    # ---- INPUT: the events come from one sequence into which every input was merged, each labelled with its track index
-    prc = next((c for c in ast.walk(fe.node) if isinstance(c, ast.Call) and call_method(c)[1] == "get_interleaved_message_pairings"), None)
-    inp = fe.params[1]
-    okm = False
-    if prc is not None and isinstance(call_method(prc)[0], ast.Name):
-        hub = call_method(prc)[0].id
-        merges = [c for c in ast.walk(fe.node) if isinstance(c, ast.Call) and call_method(c)[1] == "merge" and src(call_method(c)[0]) == hub
-                  and c.args and src(c.args[0]) == inp and c.lineno < prc.lineno and not path_conditions(c)]
-        fresh = [s_ for s_ in fe.node.body if isinstance(s_, ast.Assign) and isinstance(s_.targets[0], ast.Name) and s_.targets[0].id == hub
-                 and isinstance(s_.value, ast.Call) and src(s_.value.func) == "Sequence" and not s_.value.args and not s_.value.keywords]
-        okm = len(merges) == 1 and bool(fresh) and fresh[-1].lineno < merges[0].lineno
-    ctx.check(okm, "INPUT", "tokenise: the events are read from a fresh sequence into which all inputs were merged", function=fe.qualname,
-              construct="tokenise does not merge all input sequences into the sequence it reads events from",
-              message="without the merge no event (or only one track) reaches the token stream", file=fe.file, node=prc or fe.node)
-    setch = [c for c in ast.walk(fe.node) if isinstance(c, ast.Call) and call_method(c)[1] == "set_channel"]
-    oksc = False
-    for c in setch:
-        lp_ = next((a for a in ancestors(c) if isinstance(a, ast.For)), None)
-        if lp_ is not None and isinstance(lp_.iter, ast.Call) and src(lp_.iter.func) == "enumerate" and src(lp_.iter.args[0]) == inp \
-                and isinstance(lp_.target, ast.Tuple) and src(call_method(c)[0]) == src(lp_.target.elts[1]) and c.args and src(c.args[0]) == src(lp_.target.elts[0]) \
-                and not path_conditions(c, lp_) and prc is not None and c.lineno < prc.lineno:
-            oksc = True
-    ctx.check(oksc, "INPUT", "tokenise: input k is labelled with channel k before the merge", function=fe.qualname,
-              construct="inputs are not labelled with their track index before merging", message=f"{[short(c) for c in setch]}", file=fe.file,
-              node=setch[0] if setch else fe.node)
+    input_rule(ctx, fe)
 
     # ---- BAR: the bar token is written exactly when the bar is full and bar tokens are requested; the bar bookkeeping does not depend on the flag
     for c, a in sites.get("BAR", []):
@@ -913,6 +889,37 @@ def _check(ctx: Ctx) -> None:
     types = [enum_member(e, "MessageType") for e in pr_call.args[0].elts] if pr_call is not None and pr_call.args and isinstance(pr_call.args[0], ast.List) else []
     ctx.check({"NOTE_ON", "NOTE_OFF", "TIME_SIGNATURE"} <= set(types), "NOTE", f"tokenise pairs notes and time signatures ({types})", function=fe.qualname,
               construct="tokenise does not request note and time-signature pairings", message=f"{types}", file=fe.file, node=pr_call or fe.node)
+
+
+def input_rule(ctx: Ctx, fe) -> None:
+    """INPUT (shared with C03: a call that does not read its events -- a fast path for silent bars -- misses the signature they carry)."""
+    from ..astutil import path_conditions
+    # ---- INPUT: the events come from one sequence into which every input was merged, each labelled with its track index
+    prc = next((c for c in ast.walk(fe.node) if isinstance(c, ast.Call) and call_method(c)[1] == "get_interleaved_message_pairings"), None)
+    inp = fe.params[1]
+    okm = False
+    if prc is not None and isinstance(call_method(prc)[0], ast.Name):
+        hub = call_method(prc)[0].id
+        merges = [c for c in ast.walk(fe.node) if isinstance(c, ast.Call) and call_method(c)[1] == "merge" and src(call_method(c)[0]) == hub
+                  and c.args and src(c.args[0]) == inp and c.lineno < prc.lineno and not path_conditions(c)]
+        fresh = [s_ for s_ in fe.node.body if isinstance(s_, ast.Assign) and isinstance(s_.targets[0], ast.Name) and s_.targets[0].id == hub
+                 and isinstance(s_.value, ast.Call) and src(s_.value.func) == "Sequence" and not s_.value.args and not s_.value.keywords]
+        okm = len(merges) == 1 and bool(fresh) and fresh[-1].lineno < merges[0].lineno
+    ctx.check(okm, "INPUT", "tokenise: the events are read from a fresh sequence into which all inputs were merged", function=fe.qualname,
+              construct="tokenise does not merge all input sequences into the sequence it reads events from",
+              message="without the merge no event (or only one track) reaches the token stream", file=fe.file, node=prc or fe.node)
+    setch = [c for c in ast.walk(fe.node) if isinstance(c, ast.Call) and call_method(c)[1] == "set_channel"]
+    oksc = False
+    for c in setch:
+        lp_ = next((a for a in ancestors(c) if isinstance(a, ast.For)), None)
+        if lp_ is not None and isinstance(lp_.iter, ast.Call) and src(lp_.iter.func) == "enumerate" and src(lp_.iter.args[0]) == inp \
+                and isinstance(lp_.target, ast.Tuple) and src(call_method(c)[0]) == src(lp_.target.elts[1]) and c.args and src(c.args[0]) == src(lp_.target.elts[0]) \
+                and not path_conditions(c, lp_) and prc is not None and c.lineno < prc.lineno:
+            oksc = True
+    ctx.check(oksc, "INPUT", "tokenise: input k is labelled with channel k before the merge", function=fe.qualname,
+              construct="inputs are not labelled with their track index before merging", message=f"{[short(c) for c in setch]}", file=fe.file,
+              node=setch[0] if setch else fe.node)
+
 
 
 def rest_sum_rule(ctx: Ctx, fe, sites, eroles) -> None:
